@@ -4,8 +4,9 @@ set -e
 cd "$(dirname "$0")"
 export GOFLAGS=-mod=mod GOPROXY=off GOSUMDB=off GOTOOLCHAIN=local CGO_ENABLED=0
 REPO=${VERIF_REPO:-/repo}
-(cd extract && go build -o extract . && ./extract "$REPO" ../lean/Astits/Generated)
+# (exit status 3 of extract = some generated files are failing stubs: the checks report that, setup goes on)
+(cd extract && go build -o extract . && { ./extract "$REPO" ../lean/Astits/Generated || [ $? -eq 3 ]; })
 cp "$REPO/go.sum" harness/go.sum
 (cd harness && go build -tags verif -o harness .)
-(cd lean && lake build Astits driver)
+(cd lean && lake build driver && { lake build Astits || echo "setup: some Lean modules do not build (the checks will say which)"; })
 echo "setup done"
